@@ -87,6 +87,27 @@ func (m *machine) registerEnvIntrinsics() {
 		return uint64(0x71)
 	}
 	in[cidT+"Version"] = func(fr *frame, fn *ssa.Function, args []value) value { return uint64(1) }
+	// Prefix: version, codec, digest function and digest length of the address
+	in[cidT+"Prefix"] = func(fr *frame, fn *ssa.Function, args []value) value {
+		z := zero(fn.Signature.Results().At(0).Type()).(structure)
+		out := append(structure(nil), z...)
+		codec := uint64(0x71)
+		if s, _ := cidStr(args[0]).(string); strings.HasPrefix(s, "zraw") {
+			codec = 0x55
+		} else if s == "" && !fr.isCidToken(cidStr(args[0])) {
+			codec = 0
+		}
+		out[0] = uint64(1)
+		out[1] = codec
+		out[2] = uint64(0x12)
+		switch z[3].(type) {
+		case int64:
+			out[3] = int64(32)
+		case int:
+			out[3] = int(32)
+		}
+		return out
+	}
 	in[cidPkg+".NewCidV1"] = func(fr *frame, fn *ssa.Function, args []value) value {
 		prefix := "zdpu"
 		if asInt64(args[0]) == 0x55 {
